@@ -185,8 +185,27 @@ func (pc *propCheck) replayTranslator(o *Obligation, con *Contract) replayResult
 		pc.witnessCache = map[string]witnessOutcome{}
 	}
 	r := replayResult{}
+	all := loadWitnesses()
+	// witnesses written for this very obligation take precedence over function-level ones
+	specific := false
+	for _, w := range all {
+		for _, sub := range w.Obls {
+			for _, f := range w.Funcs {
+				if f == con.FuncName && strings.Contains(o.Name, sub) {
+					specific = true
+				}
+			}
+		}
+	}
+	special := o.Kind == "quote-free" || o.Kind == "dep-recorded"
 	// functions mentioned by the obligation: the contract's function and "in helper" suffixes
-	for _, w := range loadWitnesses() {
+	for _, w := range all {
+		if specific && len(w.Obls) == 0 {
+			continue
+		}
+		if special && !specific && !(o.Kind == "dep-recorded" && strings.HasPrefix(w.Expect, "order:")) {
+			continue
+		}
 		tagged := false
 		for _, f := range w.Funcs {
 			if f == con.FuncName || strings.Contains(o.Name, " in "+strings.TrimPrefix(strings.TrimPrefix(f, "(Ctx)."), "(Binding).")+"#") {
